@@ -3,7 +3,7 @@
 # checks named in the last column of DESIGN.md section 4.1; each must be reported again by at least one of them.
 cd "$(dirname "$0")/.."
 bad=0
-grep -E '^\| [0-9a-f]{7} \|' DESIGN.md | while IFS='|' read -r _ h props what by _; do
+grep -E '^\| [0-9a-f]{7} \|' DESIGN.md | sed 's/\\|/!/g' | while IFS='|' read -r _ h props what by _; do
   h=$(echo $h); by=$(echo "$by" | sed 's/thorough//g; s/[^C0-9,]//g')
   [ -f mutants/revert_$h.diff ] || { echo "$h: no revert patch"; continue; }
   out=$(tools/mutant.sh mutants/revert_$h.diff "$by" quick 2>&1)
